@@ -43,7 +43,22 @@ const orderType = "shop/order"
 
 func (Order) StateTypeName() string { return orderType }
 
+// legacyEnvelope is a state message as an older producer published it.
+type legacyEnvelope struct{ Inner json.RawMessage }
+
+func (legacyEnvelope) EventTypeName() string { return "c18.legacy-envelope" }
+func (l legacyEnvelope) MarshalJSON() ([]byte, error) {
+	return json.Marshal(map[string]json.RawMessage{"legacy": l.Inner})
+}
+
 type Ghost struct{ X int } // never registered
+
+// namesake: a user-shaped entity published under an entity type name that is not registered but
+// resembles a registered one (same last component)
+type namesake struct {
+	Type string
+	U    User
+}
 
 // UserNext is what a producer that was upgraded first sends: the same entity with a field the
 // consumer's struct does not know yet.
@@ -130,6 +145,17 @@ func build(s msgSpec) (any, error) {
 			case "delete-old":
 				return state.DeleteWithOldValue(s.Key, e)
 			}
+		case namesake:
+			// an unregistered entity type whose name ends like a registered one's
+			et := state.WithEntityType(e.Type)
+			switch op {
+			case "insert":
+				return state.Insert(s.Key, e.U, et)
+			case "update", "update-old":
+				return state.Update(s.Key, e.U, et)
+			case "delete-old":
+				return state.DeleteWithOldValue(s.Key, e.U, et)
+			}
 		case Ghost:
 			switch op {
 			case "insert":
@@ -156,6 +182,9 @@ func build(s msgSpec) (any, error) {
 		case "order":
 			return state.Delete[Order](s.Key)
 		default:
+			if s.Key == keys[0] {
+				return state.Delete[User](s.Key, state.WithEntityType("other.User"))
+			}
 			return state.Delete[Ghost](s.Key)
 		}
 	case "bad-value":
@@ -190,6 +219,9 @@ func gen(r *rand.Rand) []msgSpec {
 			val = genOrder(r)
 		default:
 			val = Ghost{X: r.IntN(9)}
+			if r.IntN(2) == 0 {
+				val = namesake{Type: []string{"other.User", "archive/order", "User", "c18.User.v2"}[r.IntN(4)], U: genUser(r)}
+			}
 		}
 		switch x := r.IntN(40); {
 		case x < 12 && ent == "user" && r.IntN(3) == 0:
@@ -513,6 +545,39 @@ func TestC18(t *testing.T) {
 			} else if d := failing.diff(prefix, false); d != "" {
 				viol("failed-replay-state", fmt.Sprintf("Materializer.Replay stopped at the failing message %d: %s", i0, d))
 			}
+		}
+		// the same log as an older producer wrote it - every message inside an envelope under one legacy
+		// event name - read through an upcasting replay whose upcaster unwraps it (declared target: the
+		// change-message name, for change and control messages alike): the fold is the same
+		if allOK && c%3 == 0 {
+			lst, err := stores.Open(kind, scratch)
+			if err != nil {
+				t.Fatal(err)
+			}
+			lbus := ebu.New(ebu.WithStore(lst.Store))
+			for _, e := range evs {
+				ebu.Publish(lbus, legacyEnvelope{Inner: e.Data})
+			}
+			ebu.RegisterUpcastFunc(lbus, "c18.legacy-envelope", "state.ChangeMessage", func(d json.RawMessage) (json.RawMessage, string, error) {
+				var env struct {
+					Legacy json.RawMessage `json:"legacy"`
+				}
+				if err := json.Unmarshal(d, &env); err != nil {
+					return nil, "", err
+				}
+				return env.Legacy, "state.ChangeMessage", nil
+			})
+			viaUpcast := newSess(strict)
+			if err := lbus.ReplayWithUpcast(ctx, ebu.OffsetOldest, viaUpcast.mat.Apply); err != nil {
+				viol("legacy-replay-error", err.Error())
+			} else {
+				want := *full
+				want.last = viaUpcast.mat.LastOffset() // (the legacy log has its own offsets)
+				if d := viaUpcast.diff(&want, true); d != "" {
+					viol("legacy-upcast-fold", d)
+				}
+			}
+			lst.Close()
 		}
 		// two sessions at every split point
 		splits := len(evs) + 1
